@@ -14,13 +14,9 @@ Open Scope Z_scope.
 
 (* For every well-formed log, every constructor source filter and EVERY operation sequence (no length
    bound) the reader's results — messages with their pieces / StopIteration / ValueError, IndexError —
-   are those of the cursor SPEC.  srcs' is the source filter in force after the constructor's discovery
-   step (None stays None; a request is reduced to a sub-list: the recorded C10 finding). *)
+   are those of the cursor SPEC with the same source filter. *)
 Theorem C11_reader_refines_cursor : forall c f srcs ops,
-  wf_file f ->
-  exists srcs', run_script fixed c f srcs ops = Ok (spec_script c f srcs' ops) /\
-                (srcs = None -> srcs' = None) /\
-                (forall ids, srcs = Some ids -> exists ids', srcs' = Some ids' /\ incl ids' ids).
+  wf_file f -> run_script fixed c f srcs ops = Ok (spec_script c f srcs ops).
 Proof. exact script_refines. Qed.
 Print Assumptions C11_reader_refines_cursor.
 
